@@ -68,7 +68,17 @@ RULE = ('case = one block of save_/load_ calls of the real functions on 1-3 temp
         'widths and 0-d integer array, both truth values, in one-shot, history, objhist, A;B;A blocks and the dt sweep; '
         'm as numpy scalars float16/32/64, int8..int64, uint8 and 0-d arrays float16/32/64, int64, uint16; dt of both '
         'savers and of the Signal constructor as 0-d arrays (float64 / float32 / float16 / six integer dtypes, int8 / '
-        'uint8) and numpy scalars float16, int8..uint64 next to float32 / float64.')
+        'uint8) and numpy scalars float16, int8..uint64 next to float32 / float64. Round 5 (checklist 28-33): every loader '
+        'option is snapshotted at call entry (a 0-d / one-element array or list m, a 0-d flag is the caller\'s MUTABLE '
+        'object; the shared objects of M_LIST go through many consecutive calls) - the values are judged with the factor '
+        'as it was at entry and the option objects are compared after the call; m as True / np.True_ / np.bool_(False) / '
+        '0-d bool array, negative 0-d and one-element factors; bool-dtype records (random on/off, one rectangular pulse, a '
+        'lone on sample, all on, on at both ends; 1 sample and up) as ndarray, list / tuple of Python bools and through '
+        'the Signal constructor; records given as list(arr) / tuple(arr), i.e. entries that are numpy scalars (float64 / '
+        'float32 / float16 / every integer width / bool); objhist objects with user-given settings (smooth_fa_freqs '
+        'with 1..30 entries up to 4 x Nyquist, response_times below 2 dt incl. the lone [0.0], as list and ndarray, an '
+        'explicit gen_fa_spectrum(n=2..1024)) saved again and again; A;B;A blocks in which the caller overwrites every '
+        'array of the first results (zero / scale / first sample) before the same calls are made again.')
 ASSUMPTIONS = ['the format holds values to 6 and dt to 4 decimals: "same to nd decimals" = the multiple of 10**-nd nearest '
                'to the saved number; within 4 ulps of a half-way point (exact ties included) either neighbour is accepted',
                'finite real values, length >= 1, single-line str label; dt in [1e-4, 1000] is judged (every step the '
@@ -103,6 +113,21 @@ ASSUMPTIONS = ['the format holds values to 6 and dt to 4 decimals: "same to nd d
                'spelling is no request: the label is then not judged by the model, only by A;B;A',
                'a time step or load factor given as a numpy scalar or 0-d array is the number it holds (float(x)); a witness '
                'records the numpy type of scalar options (np_types) and the replay casts them back',
+               'a loader leaves the options it was given as they were (clause load.leaves-arguments-unchanged, evaluated '
+               'when an option is a mutable object: ndarray or list), and every judgement uses the options as they were at '
+               'call entry',
+               'a bool-dtype record is the record of its 0.0 / 1.0 values (the library casts kinds i, u, b to float on '
+               'purpose); a list whose entries are numpy scalars is the record np.asarray gives; m = True / False is the '
+               'factor 1.0 / 0.0',
+               'save_signal leaves the settings a user gave to the object (smoothing frequencies, response periods, the grid '
+               'of an explicitly requested spectrum) as they were, also when they lie outside the band of the data: clause '
+               'save_signal.leaves-user-settings-unchanged, a named sub-count of save.leaves-arguments-unchanged',
+               'a result belongs to the caller: after the caller overwrote the arrays of a result, the same call returns '
+               'what the first call returned (clause earlier-result-overwritten.same-call-again==first)',
+               'checklist 33: at a half-way point (within 4 ulps) both neighbours are "the saved number to nd decimals" by the '
+               'statement itself (each is within half a unit of the last decimal); this is a per-value tolerance, not a '
+               'choice between conventions of the tree - nothing to fix per tree, no record satisfies it trivially '
+               '(non-trivial = some value does not round to 0)',
                'files are written and read within one process on a local temporary directory; nothing else touches them',
                'oracle vf/oracles/eqsig_format.py is correct (formatter and exact Decimal arithmetic cross-checked)']
 EXHAUSTIVE = {'quick': 'every time step dt = k/10000, k = 1..20000 (all 4-decimal dt up to 2 s), one save + one load each '
@@ -121,7 +146,10 @@ MIN_EVALS = {'quick': {'npts': 120000, 'dt==round4(saved)': 120000, 'values==m*r
                        'refused-save.leaves-previous-record': 2600, 'A;B;A.third==first': 1200,
                        'loaded-object.copy/deepcopy/pickle==loaded': 1000,
                        'label==saved(true flag that is not a Python bool)': 12000, 'dt-given-as-0-d-array.reload': 2000,
-                       'dt-given-as-numpy-scalar.reload': 5000, 'm-given-as-numpy-scalar|0-d-array': 11000},
+                       'dt-given-as-numpy-scalar.reload': 5000, 'm-given-as-numpy-scalar|0-d-array': 11000,
+                       'load.leaves-arguments-unchanged': 9000, 'save_signal.leaves-user-settings-unchanged': 500,
+                       'earlier-result-overwritten.same-call-again==first': 400, 'bool-dtype-record.reload': 700,
+                       'record-given-as-list-of-numpy-scalars.reload': 1400},
              'thorough': {'npts': 2200000, 'dt==round4(saved)': 2200000, 'values==m*round6(saved)': 2200000,
                           'dt.within-half-4th-decimal': 2200000, 'values.within-half-6th-decimal': 2200000,
                           'label==saved(load_label=True)': 200000, 'call-returns': 2000000,
@@ -135,7 +163,10 @@ MIN_EVALS = {'quick': {'npts': 120000, 'dt==round4(saved)': 120000, 'values==m*r
                           'refused-save.leaves-previous-record': 29000, 'A;B;A.third==first': 12000,
                           'loaded-object.copy/deepcopy/pickle==loaded': 11000,
                           'label==saved(true flag that is not a Python bool)': 240000, 'dt-given-as-0-d-array.reload': 24000,
-                          'dt-given-as-numpy-scalar.reload': 60000, 'm-given-as-numpy-scalar|0-d-array': 200000}}
+                          'dt-given-as-numpy-scalar.reload': 60000, 'm-given-as-numpy-scalar|0-d-array': 200000,
+                          'load.leaves-arguments-unchanged': 135000, 'save_signal.leaves-user-settings-unchanged': 5500,
+                          'earlier-result-overwritten.same-call-again==first': 5000, 'bool-dtype-record.reload': 8000,
+                          'record-given-as-list-of-numpy-scalars.reload': 16000}}
 
 CTX = None
 REG = {}        # realpath -> {'saved': op dict of the last successful save (None = unknown), 'pid': int, 'n_saves': int}
@@ -200,6 +231,8 @@ def _describe_values(values):
     if isinstance(values, (list, tuple)):
         if len(values) <= BIG and all(type(x) in (int, float) for x in values):
             extra['raw'] = list(values)        # element types (Python int / float) exactly as passed
+        elif len(values) and isinstance(values[0], np.generic) and all(isinstance(x, np.generic) for x in values):
+            extra['np_elems'] = True           # list(arr): the entries are numpy scalars (np.float32, np.int16, np.bool_ ...)
         return np.asarray(values), ('list' if isinstance(values, list) else 'tuple'), extra
     return np.asarray(values), type(values).__name__, extra
 
@@ -248,6 +281,8 @@ def _rebuild_values(op):
     if c in ('list', 'tuple') and op.get('raw') is not None:
         return list(op['raw']) if c == 'list' else tuple(op['raw'])
     arr = np.asarray(v)
+    if c in ('list', 'tuple') and op.get('np_elems'):      # what list(arr) gives: numpy scalars of the array's dtype
+        return list(arr) if c == 'list' else tuple(arr)
     if c == 'list':
         return arr.tolist()
     if c == 'tuple':
@@ -347,10 +382,17 @@ def end_case(remove=True):
     LOG_STATE['truncated'] = False
     _LAST.clear()
     _LASTSAVE.clear()
+    USER_SETTINGS.clear()
     del HELD[:]
 
 
 # ------------------------------------------------------------------------------------------- save monitors
+USER_SETTINGS = {}     # driver hook: id(signal) -> signal for objects whose settings (smoothing frequencies, response
+                       # periods, the N of the Fourier spectrum) were given by the user and not left at their defaults
+SETTINGS_KEYS = ('_smooth_fa_freqs', '_smooth_freq_range', '_response_times', '_fa_freqs', '_fa_spectrum', '_cached_fa',
+                 '_cached_smooth_fa', '_cached_response_spectra', '_smooth_fa_spectrum')
+
+
 _LASTSAVE = {}     # monitor side: id(argument object) -> (token, object) of the outermost save calls of this block;
                    # a witness names the objects by token so that the replay saves the SAME object where the run did
 
@@ -462,6 +504,14 @@ def _post_save(args, kwargs, result, pre):
                   lambda: _witness(key, saver=op['op'], changed_attributes=op.get('_changed')),
                   '%s changed the signal it was given (values/dt/label/attributes %s differ bit-for-bit from their state '
                   'at call entry)' % (op['op'], op.get('_changed') or ''))
+        if op['op'] == 'save_signal':
+            sig = args[1] if len(args) > 1 else kwargs['signal']
+            if USER_SETTINGS.get(id(sig)) is sig:       # writing a file is no reason to tidy the user's settings
+                bad = [k for k in (op.get('_changed') or []) if k in SETTINGS_KEYS]
+                CTX.check(not bad, 'save_signal.leaves-user-settings-unchanged',
+                          lambda: _witness(key, saver=op['op'], changed_settings=bad),
+                          'save_signal changed settings the user had given to the signal (%s): smoothing frequencies / '
+                          'response periods / spectrum grid are not what they were' % bad)
     if outer:
         _recheck_held(key)
 
@@ -482,7 +532,7 @@ def _save_failed(args, kwargs, exc, pre):
     REG[key] = e
     CTX.observe('refused-' + op['op'])
     v = op.get('values')
-    if isinstance(v, np.ndarray) and v.dtype.kind in 'fiu':       # purity is judged for refused arguments as well
+    if isinstance(v, np.ndarray) and v.dtype.kind in 'fiub':      # purity is judged for refused arguments as well
         CTX.check(_arguments_unchanged(op, args, kwargs), 'save.leaves-arguments-unchanged',
                   lambda: _witness(key, saver=op['op'], refused=True, changed_attributes=op.get('_changed')),
                   '%s raised and left the signal it was given changed (attributes %s)' % (op['op'], op.get('_changed') or ''))
@@ -499,7 +549,7 @@ def _expected(saved):
     arr = saved.get('values')
     dt = saved.get('dt')
     label = saved.get('label')
-    okk = (isinstance(arr, np.ndarray) and arr.ndim == 1 and arr.size >= 1 and arr.dtype.kind in 'fiu'
+    okk = (isinstance(arr, np.ndarray) and arr.ndim == 1 and arr.size >= 1 and arr.dtype.kind in 'fiub'
            and saved.get('dt_type') in DT_TYPES_OK)
     if okk and arr.dtype.kind == 'f':
         okk = bool(np.all(np.isfinite(arr)))
@@ -693,6 +743,10 @@ def _history_tick(e):
             CTX.ok('dt-given-as-0-d-array.reload')
         elif dtt in NP_DT_SCALARS:
             CTX.ok('dt-given-as-numpy-scalar.reload')
+        if sv and isinstance(sv.get('values'), np.ndarray) and sv['values'].dtype.kind == 'b':
+            CTX.ok('bool-dtype-record.reload')
+        if sv and sv.get('np_elems'):
+            CTX.ok('record-given-as-list-of-numpy-scalars.reload')
         if sv and isinstance(sv.get('values'), np.ndarray) and sv['values'].size > LONG_N:
             CTX.ok('long-record(>65536).reload')
         elif sv and isinstance(sv.get('values'), np.ndarray) and sv['values'].size >= 4095:
@@ -700,12 +754,37 @@ def _history_tick(e):
 
 
 # ------------------------------------------------------------------------------------------- load monitors
+def _frozen(v):
+    """A private copy of an option that the callee could change in place (0-d / one-element arrays, lists); immutable
+    values (Python numbers, numpy scalars, str, tuples of those) are returned as they are."""
+    if isinstance(v, np.ndarray):
+        return np.array(v)
+    if isinstance(v, list):
+        return [_frozen(x) for x in v]
+    return v
+
+
+def _option_same(now, snap):
+    if isinstance(snap, np.ndarray):
+        return _same_bits(now, snap)
+    if isinstance(snap, list):
+        return (isinstance(now, list) and len(now) == len(snap)
+                and all(type(a) is type(b) and _option_same(a, b) for a, b in zip(now, snap)))
+    return now is snap
+
+
 def _pre_load(name):
     def pre(args, kwargs):
         ffp = args[0] if args else kwargs['ffp']
-        kw = {k: v for k, v in kwargs.items() if k != 'ffp'}
-        op = {'op': name, 'args': list(args[1:]), 'kwargs': kw}
-        tags = {str(i): a.dtype.name for i, a in enumerate(args[1:]) if isinstance(a, np.generic)}
+        live_a = list(args[1:])
+        live_k = {k: v for k, v in kwargs.items() if k != 'ffp'}
+        # the options as they are at call entry: a 0-d array or a list is MUTABLE, the callee could change the caller's
+        # factor / flag in place - every judgement below uses these copies, never the objects after the call
+        op = {'op': name, 'args': [_frozen(a) for a in live_a], 'kwargs': {k: _frozen(v) for k, v in live_k.items()}}
+        if any(isinstance(v, (np.ndarray, list)) for v in live_a) or any(isinstance(v, (np.ndarray, list)) for v in live_k.values()):
+            op['_live'] = (live_a, live_k)
+        kw = op['kwargs']
+        tags = {str(i): a.dtype.name for i, a in enumerate(op['args']) if isinstance(a, np.generic)}
         tags.update({k: v.dtype.name for k, v in kw.items() if isinstance(v, np.generic)})
         if tags:       # a witness is JSON: np.bool_ / np.float32 ... come back as Python numbers; the replay re-casts
             op['np_types'] = tags
@@ -715,8 +794,27 @@ def _pre_load(name):
     return pre
 
 
+def _load_purity(key, op):
+    """A loader must leave the options it was given as they were (a factor or flag handed over as a 0-d / one-element
+    array or a list is the caller's object)."""
+    live = op.get('_live')
+    if live is None:
+        return
+    try:
+        same = (all(_option_same(a, b) for a, b in zip(live[0], op['args']))
+                and all(_option_same(live[1][k], v) for k, v in op['kwargs'].items()))
+    except Exception:
+        same = False
+    CTX.check(same, 'load.leaves-arguments-unchanged',
+              lambda: _witness(key, loader=op['op'], options_at_entry=[op['args'], op['kwargs']],
+                               options_after=[live[0], live[1]]),
+              '%s changed an option it was given (at entry %r %r, after the call %r %r)'
+              % (op['op'], op['args'], op['kwargs'], live[0], live[1]))
+
+
 def _post_load_values_and_dt(args, kwargs, result, pre):
     key, op, outer = pre
+    _load_purity(key, op)
     exp, e = _model(key)
     if exp is None:
         return
@@ -805,9 +903,11 @@ def _judge_object(loader, clause, want_name, key, exp, e, result, m, label_reque
 
 def _post_load_signal(args, kwargs, result, pre):
     key, op, outer = pre
+    _load_purity(key, op)
     exp, e = _model(key)
     if exp is None:
         return
+    args, kwargs = [None] + op['args'], op['kwargs']       # the options as they were at call entry
     if len(args) > 1:
         astype, given = args[1], True
     elif 'astype' in kwargs:
@@ -829,9 +929,11 @@ def _post_load_signal(args, kwargs, result, pre):
 
 def _post_load_sig(args, kwargs, result, pre):
     key, op, outer = pre
+    _load_purity(key, op)
     exp, e = _model(key)
     if exp is None:
         return
+    args, kwargs = [None] + op['args'], op['kwargs']       # the options as they were at call entry
     m = args[1] if len(args) > 1 else kwargs.get('m', 1.0)
     if outer:
         _m_tick(m)
@@ -840,9 +942,11 @@ def _post_load_sig(args, kwargs, result, pre):
 
 def _post_load_asig(args, kwargs, result, pre):
     key, op, outer = pre
+    _load_purity(key, op)
     exp, e = _model(key)
     if exp is None:
         return
+    args, kwargs = [None] + op['args'], op['kwargs']       # the options as they were at call entry
     load_label = args[1] if len(args) > 1 else kwargs.get('load_label', False)
     m = args[2] if len(args) > 2 else kwargs.get('m', 1.0)
     try:
@@ -975,6 +1079,17 @@ def _mutate(eqsig, ctx, op):
                 ctx.observe('objhist-swap-skipped(no-copy)')
                 return
             _LAST['sig_other'], _LAST['sig_obj'] = obj, other
+        elif kind == 'settings':         # user-given settings, also outside the band of the data (smoothing targets above
+            d = float(obj.dt)            # the Nyquist frequency, periods below 2 dt, a lone zero period, an explicit N)
+            fr = np.asarray(op['freqs_rel'], dtype=float) * (0.5 / d)
+            obj.smooth_fa_freqs = fr.tolist() if op.get('as_list') else fr
+            if isinstance(obj, eqsig.AccSignal):
+                per = [float(x) * d for x in op['periods_rel']]
+                obj.response_times = per if op.get('as_list') else np.array(per)
+            if op.get('n') and obj.npts >= 2:
+                with np.errstate(all='ignore'):
+                    obj.gen_fa_spectrum(n=int(op['n']))
+            USER_SETTINGS[id(obj)] = obj
         elif kind == 'assign-values':    # obj.values = <list / tuple / ndarray>: ignored or applied, never half of it
             v = _rebuild_values(op)
             obj.values = v
@@ -1092,6 +1207,11 @@ def _aba(ctx, op, path, r):
     elif slot in store:
         first = store[slot]
         now = _res_fields(r)
+        if op.get('aba_after_edit'):
+            ctx.check(_same_fields(now, first), 'earlier-result-overwritten.same-call-again==first',
+                      lambda: _witness(_key(path), loader=op['op'], first_values=first[5][:50], third_values=now[5][:50]),
+                      '%s(%r %r): the caller overwrote the arrays of the first result; the same call again does not '
+                      'return what the first call returned' % (op['op'], op.get('args'), op.get('kwargs')))
         ctx.check(_same_fields(now, first), 'A;B;A.third==first',
                   lambda: _witness(_key(path), loader=op['op'], first_values=first[5][:50], third_values=now[5][:50],
                                    first_dt=first[2], third_dt=now[2], first_label=first[4], third_label=now[4]),
@@ -1255,7 +1375,7 @@ DT_LIST = [0.0001, 0.0001, 1000, 1000.0, 0.005, 0.01, 0.02, 0.5, 0.9999, 1, 1.0,
            1.0005, 12.3456, 1.0001, 9.9999, 10.0001, 50.505, 7.0707, 3.1416, 0.1, 0.2, 0.025, 0.0025, 2, 20, 60]
 VALUE_CLASSES = ['record', 'record', 'record', 'tiny', 'halfway6', 'tie6', 'huge', 'manydigit', 'mixed', 'int', 'f32',
                  'zeros', 'micro', 'offset', 'edges', 'edges', 'narrow-int', 'narrow-int', 'f16', 'spike-dynamic', 'shape',
-                 'shape', 'carry6']
+                 'shape', 'carry6', 'bool']
 NARROW = [np.int8, np.uint8, np.int16, np.uint16, np.int32, np.uint32]
 LABELS = ['a label with spaces', '123', '123 4', '12 0.5000', '3 0.0100', '', 'a,b', '1.5,2.5', '# hash', 'x#y',
           ' lead', 'trail ', 'two  spaces', '-1.5', '0.01', 'nan', 'm1', 'M1', 'label', 'dt=0.01 npts=100',
@@ -1266,7 +1386,9 @@ M_LIST = [1, 1.0, 2, 2.0, 0.5, -1, -1.0, 9.81, 0, 0.0, -0.0, np.float64(2.5), np
           # round 4: numpy scalars of every width and 0-d arrays of other dtypes
           np.float16(0.5), np.int32(2), np.uint8(3), np.int8(-1), np.int16(-4), np.float64(-0.0), np.float32(0.0),
           np.array(2), np.array(0.5, dtype=np.float32), np.array(3, dtype=np.uint16), np.array(-2.5, dtype=np.float16),
-          np.array(1), np.float64(1.0), np.int64(0)]
+          np.array(1), np.float64(1.0), np.int64(0),
+          # round 5: boolean forms of a numeric option (a factor that is an on/off switch), mutable 0-d forms once more
+          True, np.True_, np.array(True), np.bool_(False), np.array(-9.81), np.array([-2.0]), [-0.5]]
 
 
 def gen_flag(rng, truth):
@@ -1510,6 +1632,21 @@ def gen_values(rng, n, cls=None):
                      rng.integers(1, 1001, size=n).astype(float))
         e = rng.choice([1e-10, 2e-7, 4.9e-7, -1e-10, -2e-7], size=n)     # negative: stays at J - 0.000001
         return sign * (j - 5e-7 + e), cls
+    if cls == 'bool':        # on/off record (bool dtype): random switching, one rectangular pulse, a lone on sample, all on
+        how = int(rng.integers(0, 5))
+        x = np.zeros(n, dtype=bool)
+        if how == 0:
+            x = rng.random(size=n) < 0.5
+        elif how == 1:
+            i0 = int(rng.integers(0, n))
+            x[i0:i0 + int(rng.integers(1, n + 1))] = True
+        elif how == 2:
+            x[int(rng.integers(0, n))] = True
+        elif how == 3:
+            x[:] = True
+        else:                # off except at both ends
+            x[0] = x[-1] = True
+        return x, 'bool-%d' % how
     if cls == 'f16':
         return np.clip(rng.normal(size=n) * 10.0 ** rng.uniform(-2, 3), -6e4, 6e4).astype(np.float16), cls
     raise ValueError(cls)
@@ -1584,7 +1721,10 @@ def gen_save(rng, n=None, maxlen=2000):
             cont = 'tuple'
         op = {'op': 'save_values_and_dt', 'values': vals, 'container': cont, 'dt': dtv, 'dt_type': dtt, 'label': label,
               'kw': bool(rng.random() < 0.2)}
-        if cont != 'ndarray':
+        if cont != 'ndarray' and rng.random() < 0.3:
+            op['np_elems'] = True                  # list(arr) / tuple(arr): entries are numpy scalars of the record's dtype
+            vcls += '+numpy-scalar-entries'
+        elif cont != 'ndarray':
             if vals.dtype.kind == 'f' and vals.dtype != np.float64:
                 op['values'] = vals = vals.astype(float)
             raw = vals.tolist()                    # Python floats (float arrays) or Python ints (integer arrays)
@@ -1688,7 +1828,8 @@ def _digest(ops):
         parts.append(op['op'])
         parts.append(op.get('pid_local', 0))
         for k in ('from_last_load', 'from_held', 'same_object_as_prev_save', 'kind', 'ffp_kw', 'kw', 'out_of_domain',
-                  'ctor_container', 'label_positional', 'bad', 'good', 'tuple', 'text', 'aba', 'protocol'):
+                  'ctor_container', 'label_positional', 'bad', 'good', 'tuple', 'text', 'aba', 'protocol', 'np_elems',
+                  'freqs_rel', 'periods_rel', 'as_list', 'n', 'aba_after_edit'):
             if op.get(k):
                 parts.append('%s=%r' % (k, op[k]))
         if 'values' in op:
@@ -1961,6 +2102,15 @@ def case_objhist(case_seed):
             d_, _ = gen_dt(rng)
             dv_, dt_ = _describe_dt(d_)
             ops.append({'op': 'mutate', 'kind': 'assign-dt', 'dt': dv_, 'dt_type': dt_})
+        if rng.random() < 0.3:          # settings given by the user (round 5, item 31): the saves that follow must leave them
+            nf_ = int(rng.choice([1, 2, 3, 5, 30]))
+            fr_ = np.sort(rng.uniform(0.01, 1.0, size=nf_)) * float(rng.choice([1.0, 1.0, 4.0]))     # x Nyquist: some above it
+            if rng.random() < 0.3:
+                fr_[-1] = 1.0 + float(rng.uniform(0.001, 3.0))
+            pr_ = [0.0] if rng.random() < 0.15 else [float(x) for x in np.round(rng.uniform(0.25, 40.0, size=int(rng.choice([1, 2, 7]))), 3)]
+            ops.append({'op': 'mutate', 'kind': 'settings', 'freqs_rel': [float(x) for x in fr_], 'periods_rel': pr_,
+                        'as_list': bool(rng.random() < 0.5),
+                        'n': int(rng.choice([0, 0, 2, 3, 16, 100, 1024]))})
         if k == 7:
             ops.append({'op': 'mutate', 'kind': 'warm'})
         elif k == 8:
@@ -2036,6 +2186,8 @@ def _variant_of(rng, a, how):
         if v.dtype.kind == 'f':
             with np.errstate(over='ignore'):
                 nv = (v.astype(float) * 0.5 + 1.0 + rng.normal(size=len(v))).astype(v.dtype)
+        elif v.dtype.kind == 'b':
+            nv = ~v
         else:
             nv = v[::-1].copy()
             if np.array_equal(nv, v):
@@ -2075,12 +2227,20 @@ def case_aba(case_seed):
     loads = [ABA_LOADS[i](rng) for i in pick]
     ops = []
 
+    # a result belongs to the caller (round 5, item 32): every array of the FIRST results is overwritten by the caller
+    # right after it was handed out; the same call with the same arguments must still give the first value
+    edit = ['scale', 'zero', 'first'][int(rng.integers(3))] if rng.random() < 0.4 else None
+
     def L(pl, tag):
         for i, ld in enumerate(loads):
             o = dict(ld, pid_local=pl)
             if tag:
                 o['aba'] = (tag, i)
+            if tag == 'third' and edit:
+                o['aba_after_edit'] = True
             ops.append(o)
+            if tag == 'first' and edit:
+                ops.append({'op': 'edit_result', 'how': edit, 'pid_local': pl})
 
     if rng.random() < 0.5:            # load side
         ops.append(dict(a, pid_local=0))
